@@ -3,6 +3,8 @@ import MidoModel.Meta
 import MidoModel.Tracks
 import MidoModel.Tempo
 import MidoModel.Smf
+import MidoModel.MidiFileState
+import MidoModel.Backend
 /- Text protocol helpers for the driver: parsing requests, printing canonical results. -/
 namespace Mido
 
@@ -174,6 +176,63 @@ def LEvent.show (e : LEvent) : String := s!"{e.delta};" ++ e.ev.show
 
 def LFile.show (f : LFile) : String :=
   s!"{f.type} {f.tpb}" ++ String.join (f.tracks.map (fun t => " |" ++ String.join (t.map (fun e => " " ++ e.show))))
+
+def FOut.show : FOut → String
+  | .done => "done" | .raised e => "err " ++ e.name
+  | .track t => "track" ++ String.join (t.map (fun e => " " ++ e.show))
+
+/-! backend configurations: strings with `-` = None, `@` = empty string -/
+def optStr (s : String) : Option String := if s == "-" then none else if s == "@" then some "" else some s
+def showOpt : Option String → String | none => "-" | some s => if s.isEmpty then "@" else s
+def Cls.show : Cls → String | .Input => "Input" | .Output => "Output" | .IOPort => "IOPort"
+def Rec.show : Rec → String
+  | .import_ m => s!"import:{if m.isEmpty then "@" else m}"
+  | .ctor c n a => s!"ctor:{c.show}:{showOpt n}:{showOpt a}"
+  | .getDevices a => s!"devices:{showOpt a}"
+
+def kvGet (kvs : List (String × String)) (k : String) : String :=
+  match kvs.find? (·.1 == k) with | some p => p.2 | none => "-"
+
+def parseKVs (ts : List String) : List (String × String) :=
+  ts.filterMap fun t => match t.splitOn "=" with | [a, b] => some (a, b) | _ => none
+
+def parseDevices (s : String) : List (String × Bool × Bool) :=
+  if s == "-" then [] else (s.splitOn ",").filterMap fun d =>
+    match d.splitOn ":" with | [n, i, o] => some (n, i == "1", o == "1") | _ => none
+
+/-- one call description `fn/name/api` with api `unset` | `-` | value -/
+def runBackendCall (b : Backend) (env : BEnv) (call : String) : Except Err (Backend × String) :=
+  match call.splitOn "/" with
+  | [fn, nm, ap] =>
+    let name := optStr nm
+    let ca : Option (Option String) := if ap == "unset" then none else some (optStr ap)
+    let fmt (r : List Rec) (names : Option (List String)) : String :=
+      " ".intercalate (r.map Rec.show) ++ (match names with | some ns => " => " ++ ",".intercalate ns | none => "")
+    match fn with
+    | "open_input" => (b.openInput env name ca).map (fun (b', r) => (b', fmt r none))
+    | "open_output" => (b.openOutput env name ca).map (fun (b', r) => (b', fmt r none))
+    | "open_ioport" => (b.openIoport env name ca).map (fun (b', r) => (b', fmt r none))
+    | "get_input_names" => (b.getNames env .inputs ca).map (fun (b', r, ns) => (b', fmt r (some ns)))
+    | "get_output_names" => (b.getNames env .outputs ca).map (fun (b', r, ns) => (b', fmt r (some ns)))
+    | "get_ioport_names" => (b.getNames env .ioports ca).map (fun (b', r, ns) => (b', fmt r (some ns)))
+    | _ => .error .Other
+  | _ => .error .Other
+
+def runBackend (ts : List String) : String :=
+  let kv := parseKVs ts
+  let g := kvGet kv
+  let env : BEnv := {
+    midoBackend := optStr (g "MB"), defInput := optStr (g "DI"), defOutput := optStr (g "DO"),
+    defIoport := optStr (g "DIO"), importable := if g "imp" == "-" then [] else (g "imp").splitOn ",",
+    hasIOPort := g "hasio" == "1", hasGetDevices := g "hasgd" == "1", devices := parseDevices (g "devs") }
+  let b := mkBackend env (optStr (g "name")) (optStr (g "api")) (g "use" == "1")
+  let calls := ts.filter (fun t => !(t.contains '=') )
+  let rec go (b : Backend) : List String → List String
+    | [] => []
+    | c :: rest => match runBackendCall b env c with
+      | .ok (b', s) => ("ok " ++ s) :: go b' rest
+      | .error e => ("err " ++ e.name) :: go b rest
+  s!"backend {if b.name.isEmpty then "@" else b.name} {showOpt b.api} | " ++ " | ".intercalate (go b calls)
 
 /-- run-length compression `x*n` of equal neighbours, joined by `;` -/
 def rle (xs : List String) : String :=
